@@ -136,3 +136,15 @@ MUTANTS += [
     ("loc_bbox_minmax_swapped", Q, "(lon < bbox.minx) | (lat < bbox.miny)", "(lon < bbox.miny) | (lat < bbox.minx)", ["C14"]),
     ("loc_shape_unchecked", Q, "    if lon.shape != lat.shape:\n        msg = f\"Lon ({lon.shape}) and lat", "    if False:\n        msg = f\"Lon ({lon.shape}) and lat", ["C14"]),
 ]
+MUTANTS += [
+    ("clim_tspan_lt", Q, "t_idx = (tinp_copy >= m.tspan.minv) & (tinp_copy <= m.tspan.maxv)", "t_idx = (tinp_copy >= m.tspan.minv) & (tinp_copy < m.tspan.maxv)", ["C08"]),
+    ("clim_zspan_gt", Q, "z_idx = (~zinp.mask) & (zinp >= m.zspan.minv) & (zinp <= m.zspan.maxv)", "z_idx = (~zinp.mask) & (zinp > m.zspan.minv) & (zinp <= m.zspan.maxv)", ["C08"]),
+    ("clim_first_match_wins", Q, "        for m in self._members:\n            if m.period is not None:\n                # If a period is defined, extract the attribute from the\n                # pd.DatetimeIndex", "        for m in reversed(self._members):\n            if m.period is not None:\n                # If a period is defined, extract the attribute from the\n                # pd.DatetimeIndex", ["C08"]),
+    ("clim_vspan_ge", Q, "suspect_idx = (inp < m.vspan.minv) | (inp > m.vspan.maxv)", "suspect_idx = (inp < m.vspan.minv) | (inp >= m.vspan.maxv)", ["C08"]),
+    ("clim_fspan_ignored_low", Q, "fail_idx = (inp < m.fspan.minv) | (inp > m.fspan.maxv)", "fail_idx = (inp > m.fspan.maxv)", ["C08"]),
+    ("clim_week_uses_calendar_week", Q, "                        tinp.isocalendar().week,", "                        (tinp.dayofyear - 1) // 7 + 1,", ["C08"]),
+    ("clim_missing_value_regress", Q, "                & ~np.ma.getmaskarray(inp)\n", "", ["C08", "C02"]),
+    ("clim_no_vspan_sort", Q, "        vspan = span(*sorted(vspan))", "        vspan = span(*vspan)", ["C08"]),
+    ("clim_unmatched_good", Q, "        flag_arr.fill(QartodFlags.UNKNOWN)\n\n        # If the value is masked set the flag to MISSING", "        flag_arr.fill(QartodFlags.GOOD)\n\n        # If the value is masked set the flag to MISSING", ["C08"]),
+    ("clim_zspan_member_when_all_depth_missing", Q, "            if not isnan(m.zspan) and (not zinp.count() or isnan(zinp.any())):\n                continue\n", "", ["C08"]),
+]
